@@ -351,9 +351,15 @@ func replayMain(t *testing.T, c Check, file string) {
 			t.Fatalf("replay plan: %v", err)
 		}
 		o := c.Exec(t, p)
-		if o.Signature != rp.Signature || o.LogHash != rp.LogHash {
+		if o.Signature != rp.Signature {
 			fmt.Printf("REPLAY-DIVERGED property=%s want=%s/%s got=%s/%s\n", c.ID, rp.Signature, rp.LogHash, o.Signature, o.LogHash)
 			t.Fatalf("replay diverged")
+		}
+		if o.LogHash != rp.LogHash {
+			// The same violation, along an event log that differs in some detail: the code under test does
+			// something between two seams that is not a function of the plan (state shared across runs, map
+			// order). The violation is real and is reported; the difference is reported with it.
+			fmt.Printf("REPLAY-LOGHASH-DIFFERS property=%s signature=%s want=%s got=%s\n", c.ID, o.Signature, rp.LogHash, o.LogHash)
 		}
 		if round == 0 {
 			fmt.Printf("REPLAY-REPRODUCED property=%s signature=%s log_hash=%s\n%s\n", c.ID, o.Signature, o.LogHash, o.Message)
